@@ -1,17 +1,21 @@
 package main
 
 import (
+	"bytes"
 	"context"
 	"fmt"
 	"sort"
 	"sync"
 
+	"github.com/gagliardetto/solana-go"
+	"github.com/ipfs/go-cid"
 	"github.com/rpcpool/yellowstone-faithful/gsfa"
 	"github.com/rpcpool/yellowstone-faithful/gsfa/linkedlog"
 	"github.com/rpcpool/yellowstone-faithful/indexes"
 	"github.com/rpcpool/yellowstone-faithful/ipld/ipldbindcode"
 	"github.com/rpcpool/yellowstone-faithful/iplddecoders"
 	"github.com/rpcpool/yellowstone-faithful/slottools"
+	"github.com/rpcpool/yellowstone-faithful/third_party/solana_proto/confirmed_block"
 	"github.com/sourcegraph/jsonrpc2"
 	"k8s.io/klog/v2"
 )
@@ -80,6 +84,38 @@ func (ser *MultiEpoch) getGsfaReadersInEpochDescendingOrderForSlotRange(ctx cont
 	}
 
 	return gsfaReaderMultiEpoch, epochNums
+}
+
+// transactionMentionsAddress reports whether `index gsfa` would have listed the transaction under pk:
+// pk is one of the account keys of the message, or one of the addresses the transaction loaded from
+// lookup tables (recorded in protobuf metadata).
+func transactionMentionsAddress(
+	transactionNode *ipldbindcode.Transaction,
+	dataFrameGetter func(ctx context.Context, wantedCid cid.Cid) (*ipldbindcode.DataFrame, error),
+	pk solana.PublicKey,
+) (bool, error) {
+	tx, meta, err := parseTransactionAndMetaFromNode(transactionNode, dataFrameGetter)
+	if err != nil {
+		return false, err
+	}
+	for _, key := range tx.Message.AccountKeys {
+		if key == pk {
+			return true, nil
+		}
+	}
+	if protoMeta, ok := meta.(*confirmed_block.TransactionStatusMeta); ok {
+		for _, loaded := range protoMeta.LoadedReadonlyAddresses {
+			if bytes.Equal(loaded, pk[:]) {
+				return true, nil
+			}
+		}
+		for _, loaded := range protoMeta.LoadedWritableAddresses {
+			if bytes.Equal(loaded, pk[:]) {
+				return true, nil
+			}
+		}
+	}
+	return false, nil
 }
 
 func countTransactions(v gsfa.EpochToTransactionObjects) int {
@@ -169,6 +205,14 @@ func (multi *MultiEpoch) handleGetSignaturesForAddress(ctx context.Context, conn
 			decoded, err := iplddecoders.DecodeTransaction(raw)
 			if err != nil {
 				return nil, fmt.Errorf("error while decoding transaction from nodex at offset %d: %w", oas.Offset, err)
+			}
+			// The pubkey index keeps no keys: an address that is not in it can collide with one that is.
+			mentions, err := transactionMentionsAddress(decoded, epoch.GetDataFrameByCid, pk)
+			if err != nil {
+				return nil, fmt.Errorf("failed to parse transaction at offset %d: %w", oas.Offset, err)
+			}
+			if !mentions {
+				return nil, gsfa.ErrNotForAddress
 			}
 			return decoded, nil
 		},
